@@ -505,7 +505,7 @@ class Interp:
         load = _as_load(node.target)
         for old, s in self._ev(load, st, out):
             for v, s2 in self._ev(node.value, s, out):
-                nv = ("binop", type(node.op).__name__, old, v)
+                nv = text_term(("binop", type(node.op).__name__, old, v))
                 out.next.extend(self.assign(node.target, nv, s2, out, node))
         return out
 
@@ -1288,7 +1288,7 @@ class Interp:
                     continue
                 except Exception:
                     pass
-            res.append((("binop", op, a, b), s))
+            res.append((text_term(("binop", op, a, b)), s))
         return res
 
     def e_UnaryOp(self, e: ast.UnaryOp, st, out):
@@ -1532,6 +1532,8 @@ class Interp:
         else:
             self.unresolved_calls += 1
         call_v = ("call", cv, args, kwargs, self.tag(node))
+        if cv[0] == "attr" and cv[2] == "format" and cv[1][0] == "const":
+            call_v = text_term(call_v)
         if fi is not None and (fi.is_generator()):
             gv = ("gen", fi.fq, args, kwargs, recv, captured)
             return [(gv, st)]
@@ -1684,6 +1686,48 @@ def _free_names(fn_node: ast.AST) -> Set[str]:
     return loads - bound
 
 
+def text_term(v: Value) -> Value:
+    """Canonical form of a str built by `+`, `%` or `.format` around constant text: the same ('fstr', parts) term an f-string
+    gives (constants merged), so that rules see WHAT the text is made of, not which formatting idiom wrote it. Terms that
+    involve no constant str text (`a + b` of two unknowns, bytes arithmetic) are left as they are."""
+    if v[0] == "binop" and v[1] == "Add":
+        if not any(x[0] == "fstr" or (x[0] == "const" and isinstance(x[1], str)) for x in (v[2], v[3])):
+            return v
+    elif v[0] == "binop" and v[1] == "Mod":
+        if not (v[2][0] == "const" and isinstance(v[2][1], str)):
+            return v
+    elif not (v[0] == "call" and v[1][0] == "attr" and v[1][2] == "format" and v[1][1][0] == "const" and isinstance(v[1][1][1], str)):
+        return v
+    parts = strparts(v)
+    if parts is None:
+        return v
+    if any(x[0] == "const" and isinstance(x[1], bytes) for x in parts):
+        return v
+    if len(parts) == 1 and parts[0][0] == "const":
+        return parts[0]
+    if not parts:
+        return ("const", "")
+    return ("fstr", tuple(parts))
+
+
+def split_suffix(v: Value) -> Optional[Tuple[Value, str]]:
+    """(core, text) when v is `core + "text"` (constant str suffix) in any formatting idiom, else None"""
+    p_ = strparts(v) if v[0] in ("fstr", "binop", "call") else None
+    if p_ and len(p_) >= 2 and p_[-1][0] == "const" and isinstance(p_[-1][1], str):
+        core = p_[0] if len(p_) == 2 else ("fstr", tuple(p_[:-1]))
+        return core, p_[-1][1]
+    return None
+
+
+def split_prefix(v: Value) -> Optional[Tuple[str, Value]]:
+    """(text, core) when v is `"text" + core` (constant str prefix) in any formatting idiom, else None"""
+    p_ = strparts(v) if v[0] in ("fstr", "binop", "call") else None
+    if p_ and len(p_) >= 2 and p_[0][0] == "const" and isinstance(p_[0][1], str):
+        core = p_[1] if len(p_) == 2 else ("fstr", tuple(p_[1:]))
+        return p_[0][1], core
+    return None
+
+
 def strparts(v: Value) -> Optional[List[Value]]:
     """A text built by f-string, `+`, `"...{}...".format(...)` or `"...%s..." % (...)` as the flat list of its pieces
     (constant strings merged, other pieces as value terms); None if `v` is not such a text. Lets a rule compare WHAT a text is
@@ -1706,26 +1750,50 @@ def strparts(v: Value) -> Optional[List[Value]]:
             if a is None and b is None:
                 return None
             return (a if a is not None else [x[2]]) + (b if b is not None else [x[3]])
-        if x[0] == "call" and x[1][0] == "attr" and x[1][2] == "format" and x[1][1][0] == "const" and isinstance(x[1][1][1], str) and not x[3]:
+        if x[0] == "call" and x[1][0] == "attr" and x[1][2] == "format" and x[1][1][0] == "const" and isinstance(x[1][1][1], str):
             tmpl = x[1][1][1]
-            pieces = _re.split(r"(\{\d*(?:![rsa])?\})", tmpl)
+            import string as _string
             args = list(x[2])
+            kw = {k: v_ for k, v_ in (x[3] or ()) if k != "**"}
+            if any(k == "**" for k, _ in (x[3] or ())) or any(a[0] == "star" for a in args):
+                return None
             out = []
             auto = 0
-            for pc in pieces:
-                m = _re.fullmatch(r"\{(\d*)(![rsa])?\}", pc)
-                if m:
-                    if m.group(2) not in (None, "!s"):
-                        return None
-                    idx = int(m.group(1)) if m.group(1) else auto
-                    auto += 1
+            try:
+                fields = list(_string.Formatter().parse(tmpl))
+            except ValueError:
+                return None
+            for lit, fname, spec, conv in fields:
+                if lit:
+                    out.append(("const", lit))
+                if fname is None:
+                    continue
+                if conv not in (None, "s"):
+                    return None
+                m = _re.fullmatch(r"(\d*|[A-Za-z_]\w*)((?:\.[A-Za-z_]\w*|\[[^\]]+\])*)", fname)
+                if not m:
+                    return None
+                head, tail = m.group(1), m.group(2)
+                if head == "" or head.isdigit():
+                    idx = int(head) if head else auto
+                    if head == "":
+                        auto += 1
                     if idx >= len(args):
                         return None
-                    out.append(args[idx])
-                elif pc:
-                    if "{" in pc.replace("{{", "") or "}" in pc.replace("}}", ""):
+                    val = args[idx]
+                else:
+                    if head not in kw:
                         return None
-                    out.append(("const", pc.replace("{{", "{").replace("}}", "}")))
+                    val = kw[head]
+                for acc in _re.findall(r"\.[A-Za-z_]\w*|\[[^\]]+\]", tail):
+                    if acc.startswith("."):
+                        val = ("attr", val, acc[1:])
+                    else:
+                        key = acc[1:-1]
+                        val = ("sub", val, ("const", int(key) if key.isdigit() else key))
+                if spec:
+                    val = ("fmt", val, "", repr(spec) if False else spec)
+                out.append(val)
             return out
         if x[0] == "binop" and x[1] == "Mod" and x[2][0] == "const" and isinstance(x[2][1], (str, bytes)):
             tmpl = x[2][1]
